@@ -286,9 +286,9 @@ func safeRun(m *xpath.Machine, ck ctxKind, cur *faulttree.Node, goctx context.Co
 	var res *xpath.Result
 	switch ck {
 	case ctxEntry:
-		res = xpath.NewCtxFromCurrent(goctx, m, cur).Run()
+		res = xpath.NewCtxFromCurrent(goctx, m, cur.Entry(nil)).Run()
 	case ctxEntryValidate:
-		res = xpath.NewCtxFromCurrent(goctx, m, cur).EnableValidation().Run()
+		res = xpath.NewCtxFromCurrent(goctx, m, cur.Entry(nil)).EnableValidation().Run()
 	case ctxXNode:
 		res = xpath.NewCtxFromMach(m, smallXTree()).Run()
 	}
